@@ -4,6 +4,7 @@ package main
 
 import (
 	"bufio"
+	"sync"
 	"os"
 	"fmt"
 	"io"
@@ -26,7 +27,6 @@ func (r Res) String() string { return [...]string{"unsat", "sat", "unknown"}[r] 
 type Solver struct {
 	cmd    *exec.Cmd
 	in     *bufio.Writer
-	out    *bufio.Reader
 	inRaw  io.WriteCloser
 	ctx    *TermCtx
 	nSat   int
@@ -39,33 +39,89 @@ type Solver struct {
 	timeoutMs int
 	valDur time.Duration
 	litTerm map[int]*Term
+	gen     int
+	restarted bool
+	lines   chan string
+	dead    bool
+	Restarts int
 	pendingCmd string
 }
 
 func NewSolver(ctx *TermCtx, timeoutMs int) (*Solver, error) {
+	s := &Solver{ctx: ctx, timeoutMs: timeoutMs, litTerm: map[int]*Term{}, gen: nextSolverGen()}
+	if err := s.start(); err != nil {
+		return nil, err
+	}
+	return s, nil
+}
+
+var solverGenMu sync.Mutex
+var solverGen int
+
+func nextSolverGen() int {
+	solverGenMu.Lock()
+	defer solverGenMu.Unlock()
+	solverGen++
+	return solverGen
+}
+
+func (s *Solver) start() error {
 	cmd := exec.Command(solverPath(), "-in", "-smt2")
 	in, err := cmd.StdinPipe()
 	if err != nil {
-		return nil, err
+		return err
 	}
 	out, err := cmd.StdoutPipe()
 	if err != nil {
-		return nil, err
+		return err
 	}
 	cmd.Stderr = cmd.Stdout
 	if err := cmd.Start(); err != nil {
-		return nil, err
+		return err
 	}
-	s := &Solver{cmd: cmd, in: bufio.NewWriterSize(in, 1<<16), inRaw: in, out: bufio.NewReaderSize(out, 1<<16), ctx: ctx, timeoutMs: timeoutMs, litTerm: map[int]*Term{}}
-	if p := os.Getenv("GOSYM_SMTLOG"); p != "" {
+	s.cmd, s.inRaw = cmd, in
+	s.in = bufio.NewWriterSize(in, 1<<16)
+	s.lines = make(chan string, 1024)
+	s.dead = false
+	go func(ch chan string, rd *bufio.Reader) {
+		for {
+			line, err := rd.ReadString('\n')
+			if err != nil {
+				close(ch)
+				return
+			}
+			ch <- strings.TrimSpace(line)
+		}
+	}(s.lines, bufio.NewReaderSize(out, 1<<16))
+	if p := os.Getenv("GOSYM_SMTLOG"); p != "" && s.log == nil {
 		f, _ := os.Create(p)
 		s.log = bufio.NewWriter(f)
 	}
 	s.send("(set-option :global-declarations true)")
 	s.send("(set-option :produce-models true)")
 	s.send("(set-option :produce-unsat-cores true)")
-	s.send(fmt.Sprintf("(set-option :timeout %d)", timeoutMs))
-	return s, nil
+	s.send(fmt.Sprintf("(set-option :timeout %d)", s.timeoutMs))
+	return nil
+}
+
+// restart kills a solver that does not answer and starts a fresh one; every term must be re-defined
+// (generation number) and the engine's run-level scope is gone.
+func (s *Solver) restart() {
+	if s.cmd != nil {
+		s.inRaw.Close()
+		s.cmd.Process.Kill()
+		s.cmd.Wait()
+	}
+	s.Restarts++
+	s.gen = nextSolverGen()
+	s.litTerm = map[int]*Term{}
+	s.depth = 0
+	for _, d := range s.ctx.ufs {
+		d.emit = false
+	}
+	if err := s.start(); err != nil {
+		panic(engineErr{"cannot restart solver: " + err.Error()})
+	}
 }
 
 func (s *Solver) Close() {
@@ -74,6 +130,7 @@ func (s *Solver) Close() {
 		s.cmd.Process.Kill()
 		s.cmd.Wait()
 		s.cmd = nil
+		s.dead = true
 	}
 }
 
@@ -111,7 +168,7 @@ func (s *Solver) ref(t *Term) string {
 
 // define makes sure t (and everything below it) is defined in the session.
 func (s *Solver) define(t *Term) {
-	if t.emit || t.op == OConst {
+	if t.emit == s.gen || t.op == OConst {
 		return
 	}
 	// iterative post-order to avoid deep host recursion on long chains
@@ -122,20 +179,20 @@ func (s *Solver) define(t *Term) {
 	stack := []fr{{t, 0}}
 	for len(stack) > 0 {
 		f := &stack[len(stack)-1]
-		if f.t.emit || f.t.op == OConst {
+		if f.t.emit == s.gen || f.t.op == OConst {
 			stack = stack[:len(stack)-1]
 			continue
 		}
 		if f.i < len(f.t.a) {
 			ch := f.t.a[f.i]
 			f.i++
-			if !ch.emit && ch.op != OConst {
+			if ch.emit != s.gen && ch.op != OConst {
 				stack = append(stack, fr{ch, 0})
 			}
 			continue
 		}
 		s.define1(f.t)
-		f.t.emit = true
+		f.t.emit = s.gen
 		stack = stack[:len(stack)-1]
 	}
 }
@@ -158,6 +215,11 @@ func (s *Solver) define1(t *Term) {
 			d.emit = true
 		}
 	}
+	s.send(s.defString(t))
+}
+
+// defString renders the define-fun of a non-variable term.
+func (s *Solver) defString(t *Term) string {
 	var sb strings.Builder
 	sb.WriteString("(define-fun t" + strconv.Itoa(t.id) + " () " + sortSMT(t.w) + " ")
 	switch t.op {
@@ -185,11 +247,17 @@ func (s *Solver) define1(t *Term) {
 		sb.WriteString(")")
 	}
 	sb.WriteString(")")
-	s.send(sb.String())
+	return sb.String()
 }
 
 func (s *Solver) Push() { s.send("(push 1)"); s.depth++ }
-func (s *Solver) Pop()  { s.send("(pop 1)"); s.depth-- }
+func (s *Solver) Pop() {
+	if s.depth == 0 {
+		return
+	}
+	s.send("(pop 1)")
+	s.depth--
+}
 
 func (s *Solver) Assert(t *Term) {
 	if t.IsTrue() {
@@ -199,16 +267,35 @@ func (s *Solver) Assert(t *Term) {
 	s.send("(assert " + s.ref(t) + ")")
 }
 
+type solverHung struct{}
+
 func (s *Solver) readLine() string {
-	line, err := s.out.ReadString('\n')
-	if err != nil {
-		panic(engineErr{"solver pipe: " + err.Error()})
+	limit := time.Duration(s.timeoutMs)*time.Millisecond*2 + 10*time.Second
+	select {
+	case line, ok := <-s.lines:
+		if !ok {
+			panic(engineErr{"solver pipe closed"})
+		}
+		return line
+	case <-time.After(limit):
+		panic(solverHung{})
 	}
-	return strings.TrimSpace(line)
 }
 
 // Check runs (check-sat) in the current scope.
-func (s *Solver) Check() Res {
+func (s *Solver) Check() (res Res) {
+	defer func() {
+		if x := recover(); x != nil {
+			if _, ok := x.(solverHung); ok {
+				s.nUnk++
+				s.restart()
+				s.restarted = true
+				res = Unknown
+				return
+			}
+			panic(x)
+		}
+	}()
 	if s.pendingCmd != "" {
 		s.send(s.pendingCmd)
 		s.pendingCmd = ""
@@ -270,7 +357,7 @@ func (s *Solver) Values(ts []*Term) map[*Term]uint64 {
 			res[t] = t.c
 			continue
 		}
-		if t.w > 64 || !t.emit {
+		if t.w > 64 || t.emit != s.gen {
 			continue
 		}
 		q = append(q, t)
@@ -397,9 +484,9 @@ func solverPath() string {
 // lit returns the name of the indicator literal of t, declaring it on first use.
 func (s *Solver) lit(t *Term) string {
 	name := "p" + strconv.Itoa(t.id)
-	if !t.plit {
+	if t.plit != s.gen {
 		s.send("(declare-const " + name + " Bool)")
-		t.plit = true
+		t.plit = s.gen
 		s.litTerm[t.id] = t
 	}
 	return name
